@@ -108,7 +108,11 @@ func ParseHCLFile(file afero.File) (AmmoHCL, error) {
 	}
 
 	localsBodyContent, remainingBody, diag := f.Body.PartialContent(localsSchema())
-	// diag still may have errors, because PartialContent doesn't know about Functions and self-references to locals
+	// PartialContent evaluates nothing: its errors are about the locals blocks themselves (a `locals` block with a
+	// label is taken out of the body WITHOUT being returned, so ignoring them would silently drop its definitions)
+	if diag.HasErrors() {
+		return AmmoHCL{}, diag
+	}
 	if localsBodyContent == nil || remainingBody == nil {
 		return AmmoHCL{}, diag
 	}
